@@ -1,0 +1,30 @@
+/**
+ * @file verif_hook.h
+ * @brief Verification hook (compiled only with -DCARQUET_VERIF)
+ *
+ * The library never defines carquet_verif_event.  A verification harness may
+ * define it to record (thread, site, object, a, b) traces and to perturb the
+ * thread schedule (yield/sleep) at stdio and lazy-initialisation sites.
+ * Without CARQUET_VERIF this header declares nothing.
+ */
+
+#ifndef CARQUET_VERIF_HOOK_H
+#define CARQUET_VERIF_HOOK_H
+
+#ifdef CARQUET_VERIF
+
+enum {
+    CARQUET_VERIF_IO_YIELD     = 0, /* before a stdio call, stream lock not held: schedule point */
+    CARQUET_VERIF_FSEEK        = 1, /* object = FILE*, a = target offset, b = position before */
+    CARQUET_VERIF_FREAD        = 2, /* object = FILE*, a = bytes requested, b = position before */
+    CARQUET_VERIF_INIT_BEGIN   = 3, /* object = table, a = table id: flag seen 0, initialiser starts */
+    CARQUET_VERIF_INIT_PUBLISH = 4  /* object = table, a = table id: table written, flag store next */
+};
+
+__attribute__((weak)) void carquet_verif_event(int site, const void* object, long a, long b);
+
+#define CARQUET_VERIF_EVENT(site, object, a, b) \
+    do { if (carquet_verif_event) carquet_verif_event((site), (object), (long)(a), (long)(b)); } while (0)
+
+#endif /* CARQUET_VERIF */
+#endif /* CARQUET_VERIF_HOOK_H */
